@@ -673,6 +673,10 @@ func (s *Session) applyContract(fr *Frame, c *Contract, fn *ssa.Function, sig *t
 		if en.Mode != "" && en.Mode != mode {
 			continue
 		}
+		if strings.Contains(en.Src, "callres(") {
+			// a postcondition about the callee's own inner calls says nothing a caller can use: not assumed
+			continue
+		}
 		f := s.evalBool(se2, en.E)
 		s.assume(Imp(st.Reach, f))
 	}
